@@ -50,27 +50,32 @@ def search(prop, o, doc, gdir):
     base = build_baseline(gdir)
     if not (os.path.exists(cur) and base):
         return None
+    def by_history(lines):
+        out = {}
+        for l in lines:
+            m = re.match(r'H(\d+) S(\d+) ', l)
+            if m and '->' in l:
+                out.setdefault(int(m.group(1)), []).append(l)
+        return out
+
     for seed in range(1, 9):
         rc1, a = trace(cur, cont, seed, 400, 60)
         rc2, b = trace(base, cont, seed, 400, 60)
-        crashed = rc1 != 0 and rc2 == 0
-        for i, (x, y) in enumerate(zip(a, b)):
-            if x != y:
-                m = re.match(r'H(\d+) S(\d+)', x) or re.match(r'H(\d+) S(\d+)', y)
-                h = int(m.group(1))
-                hist_cur = [l for l in a if l.startswith('H%d ' % h)]
-                hist_base = [l for l in b if l.startswith('H%d ' % h)]
-                k = next(j for j, (p, q) in enumerate(zip(hist_cur, hist_base)) if p != q)
-                return dict(kind='differential-vs-baseline', container=cont, seed=seed, history=h, diverging_step=k,
-                            calls=[re.sub(r'^H\d+ S\d+ ', '', l) for l in hist_cur[:k + 1]],
-                            working_tree_result=hist_cur[k].split('->')[1].strip(), baseline_result=hist_base[k].split('->')[1].strip(),
-                            note='results are printed as integers: booleans 0/1, optionals as (has, value), counts; @ is the virtual clock in ns')
-        if crashed or len(a) < len(b):
-            last = [l for l in a if l.startswith('H')][-1:] or ['']
-            m = re.match(r'H(\d+)', last[0])
-            h = int(m.group(1)) if m else 0
-            return dict(kind='real-library-crash', container=cont, seed=seed, history=h, calls=[re.sub(r'^H\d+ S\d+ ', '', l) for l in a if l.startswith('H%d ' % h)],
-                        note='the real library crashed (or stopped) on this history with the change applied; the baseline completes it')
+        ha, hb = by_history(a), by_history(b)
+        for h in sorted(hb):
+            ca, cb = ha.get(h, []), hb[h]
+            for k, (p, q) in enumerate(zip(ca, cb)):
+                if p != q:
+                    return dict(kind='differential-vs-baseline', container=cont, seed=seed, history=h, diverging_step=k,
+                                calls=[re.sub(r'^H\d+ S\d+ ', '', l) for l in ca[:k + 1]],
+                                working_tree_result=p.split('->')[1].strip(), baseline_result=q.split('->')[1].strip(),
+                                note='results are printed as integers: booleans 0/1, optionals as (has, value), counts; @ is the virtual clock in ns')
+            if len(ca) < len(cb):
+                # the working tree stopped inside this history: the real library crashed (undefined behaviour)
+                return dict(kind='real-library-crash', container=cont, seed=seed, history=h, diverging_step=len(ca),
+                            calls=[re.sub(r'^H\d+ S\d+ ', '', l) for l in cb[:len(ca) + 1]], working_tree_result='crash (exit status %d)' % rc1,
+                            baseline_result=cb[len(ca)].split('->')[1].strip(),
+                            note='the real library crashed (or stopped) while executing the LAST call listed, with the change applied; the baseline completes it')
     return None
 
 
@@ -87,8 +92,8 @@ def run_script(doc):
             print('REPLAY: baseline HEAD: ' + y)
             print('REPLAY: the failing input reproduces (property %s, obligation %s)' % (doc.get('property'), doc.get('obligation')))
             return 1
-    if rc1 != 0 and rc2 == 0:
-        print('REPLAY: the real library crashes on the recorded history with the change applied')
+    if (rc1 != 0 and rc2 == 0) or len([l for l in a if l.startswith('H')]) < len([l for l in b if l.startswith('H')]):
+        print('REPLAY: the real library crashes on the recorded history with the change applied (property %s, obligation %s)' % (doc.get('property'), doc.get('obligation')))
         return 1
     print('REPLAY: no divergence on the recorded history (the working tree now agrees with the baseline)')
     return 0
